@@ -184,7 +184,8 @@ impl<'a> sval_ref::ValueRef<'a> for EmitValue<'a> {
 
             fn bool(&mut self, value: bool) -> sval::Result {
                 if self.in_map_key {
-                    todo!()
+                    // OTLP keys are strings: scalar keys use their text form
+                    return sval::stream_display(&mut self.stream, value);
                 }
 
                 self.any_value_begin(&ANY_VALUE_BOOL_LABEL, &ANY_VALUE_BOOL_INDEX)?;
@@ -220,7 +221,7 @@ impl<'a> sval_ref::ValueRef<'a> for EmitValue<'a> {
 
             fn i64(&mut self, value: i64) -> sval::Result {
                 if self.in_map_key {
-                    todo!()
+                    return sval::stream_display(&mut self.stream, value);
                 }
 
                 self.any_value_begin(&ANY_VALUE_INT_LABEL, &ANY_VALUE_INT_INDEX)?;
@@ -230,7 +231,7 @@ impl<'a> sval_ref::ValueRef<'a> for EmitValue<'a> {
 
             fn f64(&mut self, value: f64) -> sval::Result {
                 if self.in_map_key {
-                    todo!()
+                    return sval::stream_display(&mut self.stream, value);
                 }
 
                 self.any_value_begin(&ANY_VALUE_DOUBLE_LABEL, &ANY_VALUE_DOUBLE_INDEX)?;
